@@ -188,3 +188,715 @@ theorem regInv_removeTypes {U : Universe} (hn : NoRaise U) {s : St} (h : RegInv 
       all_goals exact h1
 
 end Desper.World
+
+namespace Desper.World
+open Desper
+
+theorem attachEvents_registered (U : Universe) (s : St) (o : Obj) (ent : Option Ent) :
+    (attachEvents U s o ent).1.registered =
+      if (U.mapOf o).isSome then insertSorted s.registered o else s.registered := by
+  unfold attachEvents
+  cases hm : U.mapOf o with
+  | none => simp
+  | some m =>
+    simp only [Option.isSome_some, if_true]
+    rw [lifecycle_reg]; rfl
+
+/-- attached but not yet registered: the state inside `create_entity` between the table loop and
+the event loop (world.py:94-121) -/
+structure PreReg (U : Universe) (s : St) (pending : List Obj) : Prop where
+  reg : ∀ o, (U.mapOf o).isSome →
+    (o ∈ s.registered ↔ ((Attached s o ∧ o ∉ pending) ∨ o ∈ s.sorted))
+  one : OneOwner s
+  disj : ∀ o, Attached s o → o ∉ s.sorted
+  pendAtt : ∀ o, o ∈ pending → Attached s o
+
+theorem preReg_of_regInv {U : Universe} {s : St} (h : RegInv U s) : PreReg U s [] :=
+  ⟨fun o ho => by simpa using h.reg o ho, h.one, h.disj, by simp⟩
+
+theorem regInv_of_preReg {U : Universe} {s : St} (h : PreReg U s []) : RegInv U s :=
+  ⟨fun o ho => by simpa using h.reg o ho, h.one, h.disj⟩
+
+/-- table loop: one more object attached, pending registration -/
+theorem preReg_attachTables {U : Universe} {s : St} {pending : List Obj} (h : PreReg U s pending)
+    (e : Ent) (c : Obj) (hslot : Dict.get? (row s e) (tyOf U c) = none) (hfresh : ¬ Attached s c)
+    (hns : c ∉ s.sorted) : PreReg U (attachTables U s e c) (c :: pending) := by
+  have hatt := attached_attachTables U (s := s) e c hslot
+  refine ⟨?_, oneOwner_attachTables U h.one e c hslot hfresh, ?_, ?_⟩
+  · intro o ho
+    have hr := h.reg o ho
+    show o ∈ s.registered ↔ _
+    rw [hr, hatt]
+    simp only [List.mem_cons, not_or]
+    constructor
+    · rintro (⟨h1, h2⟩ | h1)
+      · refine .inl ⟨.inl h1, ?_, h2⟩
+        intro e'; subst e'; exact hfresh h1
+      · exact .inr h1
+    · rintro (⟨h1 | h1, h2, h3⟩ | h1)
+      · exact .inl ⟨h1, h3⟩
+      · exact absurd h1 h2
+      · exact .inr h1
+  · intro o ho
+    rcases (hatt o).mp ho with h1 | h1
+    · exact h.disj o h1
+    · subst h1; exact hns
+  · intro o ho
+    simp only [List.mem_cons] at ho
+    rcases ho with rfl | ho
+    · exact (hatt _).mpr (.inr rfl)
+    · exact (hatt o).mpr (.inl (h.pendAtt o ho))
+
+/-- event loop: one pending object gets registered -/
+theorem preReg_attachEvents {U : Universe} {s : St} {pending : List Obj} (c : Obj) (e : Ent)
+    (h : PreReg U s pending) (hc : c ∈ pending) :
+    PreReg U (attachEvents U s c (some e)).1 (pending.filter (· ≠ c)) := by
+  have ht := attachEvents_tables U s c (some e)
+  have hr := attachEvents_registered U s c (some e)
+  have hatt : ∀ o, Attached (attachEvents U s c (some e)).1 o ↔ Attached s o := attached_sameTables ht
+  refine ⟨?_, oneOwner_of_rows (fun e' => row_of_ents ht.ents e') h.one, ?_, ?_⟩
+  · intro o ho
+    rw [hr, hatt, ht.sorted]
+    have hreg := h.reg o ho
+    by_cases hoc : o = c
+    · subst hoc
+      simp only [ho, if_true, mem_insertSorted, or_true, true_iff]
+      exact .inl ⟨h.pendAtt o hc, by simp⟩
+    · have hmem : o ∈ pending.filter (· ≠ c) ↔ o ∈ pending := by simp [hoc]
+      split
+      · rw [mem_insertSorted, hreg, hmem]
+        simp only [hoc, or_false]
+      · rw [hreg, hmem]
+  · intro o ho; rw [ht.sorted]; exact h.disj o ((hatt o).mp ho)
+  · intro o ho
+    exact (hatt o).mpr (h.pendAtt o (List.mem_filter.mp ho).1)
+
+theorem preReg_foldAttach {U : Universe} (e : Ent) (cs : List Obj) :
+    ∀ (s : St) (pending : List Obj), PreReg U s pending → cs.Nodup → (cs.map (tyOf U)).Nodup →
+      (∀ c ∈ cs, Dict.get? (row s e) (tyOf U c) = none ∧ ¬ Attached s c ∧ c ∉ s.sorted) →
+      ∃ pending', PreReg U (cs.foldl (fun s c => attachTables U s e c) s) pending' ∧
+        ∀ o, o ∈ pending' ↔ (o ∈ pending ∨ o ∈ cs) := by
+  induction cs with
+  | nil => intro s pending h _ _ _; exact ⟨pending, h, by simp⟩
+  | cons c cs ih =>
+    intro s pending h hnd htnd hfresh
+    rw [List.nodup_cons] at hnd
+    simp only [List.map_cons, List.nodup_cons, List.mem_map, not_exists, not_and] at htnd
+    obtain ⟨hslot, hna, hns⟩ := hfresh c (by simp)
+    have h1 := preReg_attachTables h e c hslot hna hns
+    have hatt := attached_attachTables U (s := s) e c hslot
+    obtain ⟨p', hp', hmem⟩ := ih (attachTables U s e c) (c :: pending) h1 hnd.2 htnd.2 (by
+      intro c' hc'
+      obtain ⟨a1, a2, a3⟩ := hfresh c' (by simp [hc'])
+      refine ⟨?_, ?_, a3⟩
+      · rw [row_attachTables]
+        split
+        · rename_i hh
+          exact absurd hh.2.symm (htnd.1 c' hc')
+        · exact a1
+      · rw [hatt]
+        rintro (h2 | h2)
+        · exact a2 h2
+        · subst h2; exact hnd.1 hc')
+    refine ⟨p', hp', ?_⟩
+    intro o; rw [hmem]; simp only [List.mem_cons]
+    constructor
+    · rintro ((h2 | h2) | h2)
+      · exact .inr (.inl h2)
+      · exact .inl h2
+      · exact .inr (.inr h2)
+    · rintro (h2 | h2 | h2)
+      · exact .inl (.inr h2)
+      · exact .inl (.inl h2)
+      · exact .inr h2
+
+theorem preReg_attachAll {U : Universe} (hn : NoRaise U) (e : Ent) (cs : List Obj) :
+    ∀ (s : St) (pending : List Obj), PreReg U s pending → cs.Nodup → (∀ c ∈ cs, c ∈ pending) →
+      (attachAll U s e cs).2 = .ok ∧
+      PreReg U (attachAll U s e cs).1 (pending.filter (fun o => !cs.contains o)) := by
+  induction cs with
+  | nil =>
+    intro s pending h _ _
+    refine ⟨rfl, ?_⟩
+    have : pending.filter (fun o => !([] : List Obj).contains o) = pending := by simp
+    rw [this]; exact h
+  | cons c cs ih =>
+    intro s pending h hnd hsub
+    rw [List.nodup_cons] at hnd
+    simp only [attachAll]
+    have h1 := preReg_attachEvents c e h (hsub c (by simp))
+    have hok : (attachEvents U s c (some e)).2 = .ok := by
+      unfold attachEvents
+      split
+      · rfl
+      · exact lifecycle_ok hn _ _ _ _ _
+    cases hx : attachEvents U s c (some e) with
+    | mk s' o =>
+      rw [hx] at h1 hok
+      simp only at hok; subst hok
+      simp only
+      obtain ⟨i1, i2⟩ := ih s' (pending.filter (· ≠ c)) h1 hnd.2 (by
+        intro c' hc'
+        refine List.mem_filter.mpr ⟨hsub c' (by simp [hc']), ?_⟩
+        have : c' ≠ c := fun e' => hnd.1 (e' ▸ hc')
+        simpa using this)
+      refine ⟨i1, ?_⟩
+      have : (pending.filter (· ≠ c)).filter (fun o => !cs.contains o) =
+          pending.filter (fun o => !(c :: cs).contains o) := by
+        rw [List.filter_filter]
+        congr 1
+        funext o
+        by_cases hoc : o = c <;> simp [hoc]
+      rw [← this]; exact i2
+
+end Desper.World
+
+namespace Desper.World
+open Desper
+
+theorem attached_removeComponent_sub {U : Universe} (hn : NoRaise U) {s : St} (h : OneOwner s) (e : Ent)
+    (t : Ty) (o : Obj) : Attached (removeComponent U s e t).1 o → Attached s o := by
+  rcases removeComponent_full hn s e t with ⟨_, heq⟩ | ⟨st, c, _, hc, _, _, hsame, _⟩
+  · rw [heq]; exact id
+  · intro ha
+    rw [attached_sameTables hsame, attached_detach h e st c hc] at ha
+    exact ha.1
+
+theorem removeComponent_sorted (U : Universe) (s : St) (e : Ent) (t : Ty) :
+    (removeComponent U s e t).1.sorted = s.sorted := (removeComponent_procs U s e t).sorted
+
+theorem attached_removeTypes_sub {U : Universe} (hn : NoRaise U) (e : Ent) (ts : List Ty) :
+    ∀ s : St, RegInv U s → ∀ o, Attached (removeTypes U s e ts).1 o → Attached s o := by
+  induction ts with
+  | nil => intro s _ o h; exact h
+  | cons t ts ih =>
+    intro s hs o
+    simp only [removeTypes]
+    have h1 := regInv_removeComponent hn hs e t
+    have h2 := attached_removeComponent_sub hn hs.one e t o
+    cases hx : removeComponent U s e t with
+    | mk s' r =>
+      obtain ⟨oc, c⟩ := r
+      rw [hx] at h1 h2
+      cases oc <;> simp only
+      · intro ha; exact h2 (ih s' h1 o ha)
+      all_goals exact h2
+
+/-- the precondition under which `create_entity(…, entity_id=e)` keeps "registered iff attached":
+distinct fresh instances of pairwise distinct types (the known finding D5a is the violation of the
+type condition) -/
+def FreshCreate (U : Universe) (s : St) (cs : List Obj) : Prop :=
+  cs.Nodup ∧ (cs.map (tyOf U)).Nodup ∧ ∀ c ∈ cs, ¬ Attached s c ∧ c ∉ s.sorted
+
+theorem regInv_createAt {U : Universe} (hn : NoRaise U) {s : St} (ht : TabInv U s) (h : RegInv U s)
+    (e : Ent) (cs : List Obj) (hf : FreshCreate U s cs) :
+    RegInv U (match removeTypes U s e ((Dict.keys (row s e)).filter
+          (fun t => cs.any (fun c => tyOf U c = t))) with
+        | (s, .ok) =>
+          match attachAll U (cs.foldl (fun s c => attachTables U s e c) s) e cs with
+          | (s, o) => (s, o, e)
+        | (s, o) => (s, o, e)).1 := by
+  obtain ⟨hnd, htnd, hfr⟩ := hf
+  have hrnd : ((Dict.keys (row s e)).filter (fun t => cs.any (fun c => tyOf U c = t))).Nodup :=
+    (ht.rowKeys e).sublist List.filter_sublist
+  have hrpres : ∀ t ∈ (Dict.keys (row s e)).filter (fun t => cs.any (fun c => tyOf U c = t)),
+      (Dict.get? (row s e) t).isSome := by
+    intro t ht'
+    exact (Dict.mem_keys_iff _ t).mp (List.mem_filter.mp ht').1
+  obtain ⟨r1, r2, _⟩ := removeTypes_all hn e _ s hrnd hrpres
+  have hreg1 := regInv_removeTypes hn h e ((Dict.keys (row s e)).filter (fun t => cs.any (fun c => tyOf U c = t)))
+  have hsub := attached_removeTypes_sub hn e ((Dict.keys (row s e)).filter (fun t => cs.any (fun c => tyOf U c = t))) s h
+  have hsorted := (removeTypes_procs U s e ((Dict.keys (row s e)).filter (fun t => cs.any (fun c => tyOf U c = t)))).sorted
+  cases hx : removeTypes U s e ((Dict.keys (row s e)).filter (fun t => cs.any (fun c => tyOf U c = t))) with
+  | mk s1 o1 =>
+    rw [hx] at r1 r2 hreg1 hsub hsorted
+    simp only at r1; subst r1
+    simp only
+    have hfresh1 : ∀ c ∈ cs, Dict.get? (row s1 e) (tyOf U c) = none ∧ ¬ Attached s1 c ∧ c ∉ s1.sorted := by
+      intro c hc
+      refine ⟨?_, fun ha => (hfr c hc).1 (hsub c ha), by rw [hsorted]; exact (hfr c hc).2⟩
+      rw [r2]
+      split
+      · rfl
+      · rename_i hnm
+        cases hg : Dict.get? (row s e) (tyOf U c) with
+        | none => rfl
+        | some v =>
+          exfalso; apply hnm
+          refine List.mem_filter.mpr ⟨(Dict.mem_keys_iff _ _).mpr (by simp [hg]), ?_⟩
+          simp only [List.any_eq_true, decide_eq_true_eq]
+          exact ⟨c, hc, rfl⟩
+    obtain ⟨p', hp', hmem⟩ := preReg_foldAttach e cs s1 [] (preReg_of_regInv hreg1) hnd htnd hfresh1
+    obtain ⟨a1, a2⟩ := preReg_attachAll hn e cs _ p' hp' hnd (fun c hc => (hmem c).mpr (.inr hc))
+    have hempty : p'.filter (fun o => !cs.contains o) = [] := by
+      rw [List.filter_eq_nil_iff]
+      intro o ho
+      have := (hmem o).mp ho
+      simp only [List.not_mem_nil, false_or] at this
+      simp [this]
+    rw [hempty] at a2
+    cases hy : attachAll U (cs.foldl (fun s c => attachTables U s e c) s1) e cs with
+    | mk s2 o2 =>
+      rw [hy] at a2
+      exact regInv_of_preReg a2
+
+theorem regInv_fields {U : Universe} {s s' : St} (h : RegInv U s) (he : s'.ents = s.ents)
+    (hr : s'.registered = s.registered) (hs : s'.sorted = s.sorted) : RegInv U s' := by
+  have hatt : ∀ o, Attached s' o ↔ Attached s o := attached_of_rows (fun e => row_of_ents he e)
+  refine ⟨?_, oneOwner_of_rows (fun e => row_of_ents he e) h.one, ?_⟩
+  · intro o ho; rw [hr, hatt, hs]; exact h.reg o ho
+  · intro o ho; rw [hs]; exact h.disj o ((hatt o).mp ho)
+
+theorem regInv_createEntity {U : Universe} (hn : NoRaise U) {s : St} (ht : TabInv U s) (h : RegInv U s)
+    (id? : Option Ent) (cs : List Obj) (hf : FreshCreate U s cs) :
+    RegInv U (createEntity U s id? cs).1 := by
+  unfold createEntity
+  cases id? with
+  | some e => exact regInv_createAt hn ht h e cs hf
+  | none =>
+    simp only
+    generalize freshFrom (Dict.keys s.ents) ((Dict.keys s.ents).length + 1) s.nextId = n
+    have ht' : TabInv U { s with nextId := n + 1 } := tabInv_of_tables ht rfl rfl
+    have h' : RegInv U { s with nextId := n + 1 } := regInv_fields h rfl rfl rfl
+    exact regInv_createAt hn ht' h' n cs hf
+
+end Desper.World
+
+namespace Desper.World
+open Desper
+
+theorem regInv_attachOne {U : Universe} (hn : NoRaise U) {s : St} (h : RegInv U s) (e : Ent) (c : Obj)
+    (hslot : Dict.get? (row s e) (tyOf U c) = none) (hfresh : ¬ Attached s c) (hns : c ∉ s.sorted) :
+    RegInv U (attachEvents U (attachTables U s e c) c (some e)).1 := by
+  have h1 := preReg_attachTables (preReg_of_regInv h) e c hslot hfresh hns
+  have h2 := preReg_attachEvents c e h1 (by simp)
+  have : ([c] : List Obj).filter (· ≠ c) = [] := by simp
+  rw [this] at h2
+  exact regInv_of_preReg h2
+
+theorem regInv_addComponent {U : Universe} (hn : NoRaise U) {s : St} (h : RegInv U s) (e : Ent)
+    (c : Obj) (hfresh : ¬ Attached s c) (hns : c ∉ s.sorted) : RegInv U (addComponent U s e c).1 := by
+  unfold addComponent
+  simp only
+  cases hg : Dict.get? (row s e) (tyOf U c) with
+  | none =>
+    simp only [Option.isSome_none, Bool.false_eq_true, if_false]
+    exact regInv_attachOne hn h e c hg hfresh hns
+  | some old =>
+    simp only [Option.isSome_some, if_true]
+    obtain ⟨hok, hsame⟩ := removeComponent_exact hn s e (tyOf U c) old hg
+    have hreg := regInv_removeComponent hn h e (tyOf U c)
+    have hsub := attached_removeComponent_sub hn h.one e (tyOf U c) c
+    have hsorted := removeComponent_sorted U s e (tyOf U c)
+    cases hx : removeComponent U s e (tyOf U c) with
+    | mk s1 r =>
+      obtain ⟨o1, c1⟩ := r
+      rw [hx] at hok hsame hreg hsub hsorted
+      simp only at hok; subst hok
+      simp only
+      have hslot : Dict.get? (row s1 e) (tyOf U c) = none := by
+        rw [row_of_ents hsame.ents, row_detach]; simp
+      exact regInv_attachOne hn hreg e c hslot (fun ha => hfresh (hsub ha)) (by rw [hsorted]; exact hns)
+
+theorem regInv_deleteEntity {U : Universe} (hn : NoRaise U) {s : St} (h : RegInv U s) (e : Ent)
+    (imm : Bool) : RegInv U (deleteEntity U s e imm).1 := by
+  unfold deleteEntity
+  split
+  · split
+    · exact h
+    · exact regInv_removeTypes hn h e _
+  · exact regInv_fields h rfl rfl rfl
+
+theorem regInv_sweep {U : Universe} (hn : NoRaise U) {s : St} (h : RegInv U s) (es : List Ent) :
+    RegInv U (sweep U s es).1 := by
+  induction es generalizing s with
+  | nil => exact h
+  | cons e es ih =>
+    simp only [sweep]
+    split
+    · exact h
+    · rename_i r hr
+      have h1 := regInv_removeTypes hn h e (Dict.keys r)
+      cases hx : removeTypes U s e (Dict.keys r) with
+      | mk s' o =>
+        rw [hx] at h1
+        cases o <;> simp only
+        · exact ih h1
+        all_goals exact h1
+
+theorem regInv_process {U : Universe} (hn : NoRaise U) {s : St} (h : RegInv U s) (dt : String) :
+    RegInv U (process U s dt).1 := by
+  unfold process
+  have h1 : RegInv U (clearDead U s).1 := by
+    unfold clearDead
+    split
+    · exact h
+    · exact regInv_sweep hn (s := { s with dead := [], sweepHints := s.sweepHints.drop 1 })
+        (regInv_fields h rfl rfl rfl) _
+  cases hx : clearDead U s with
+  | mk s' o =>
+    rw [hx] at h1
+    cases o <;> simp only
+    · exact regInv_fields h1 (runProcs_tables U s' dt _).ents (runProcs_reg U s' dt _)
+        (runProcs_tables U s' dt _).sorted
+    all_goals exact h1
+
+end Desper.World
+
+namespace Desper.World
+open Desper
+
+theorem removeProcessor_full {U : Universe} (hn : NoRaise U) (s : St) (t : Ty) :
+    ((visit U t).find? (fun st => (Dict.get? s.procs st).isSome) = none ∧
+        removeProcessor U s t = (s, .ok, none)) ∨
+    (∃ st p, Dict.get? s.procs st = some p ∧ (removeProcessor U s t).2.1 = .ok ∧
+        SameTables (dropProc U s st) (removeProcessor U s t).1 ∧
+        (removeProcessor U s t).1.registered =
+          if (U.mapOf p).isSome then s.registered.filter (· ≠ p) else s.registered) := by
+  unfold removeProcessor
+  cases hf : (visit U t).find? (fun st => (Dict.get? s.procs st).isSome) with
+  | none => left; exact ⟨rfl, rfl⟩
+  | some st =>
+    right
+    have hsome := List.find?_some hf
+    simp only [Option.isSome_iff_exists] at hsome
+    obtain ⟨p, hp⟩ := hsome
+    refine ⟨st, p, hp, ?_⟩
+    simp only [hp]
+    cases hm : U.mapOf p with
+    | none =>
+      simp only [Option.isSome_none, Bool.false_eq_true, if_false]
+      exact ⟨trivial, .refl _, rfl⟩
+    | some m =>
+      simp only [Option.isSome_some, if_true]
+      have h1 := lifecycle_tables U (dropProc U s st) onRemove p m none
+      have h2 := lifecycle_ok hn (dropProc U s st) onRemove p m none
+      have h3 := lifecycle_reg U (dropProc U s st) onRemove p m none
+      cases hl : lifecycle U (dropProc U s st) onRemove p m none with
+      | mk s' o =>
+        rw [hl] at h1 h2 h3
+        simp only at h2; subst h2
+        refine ⟨rfl, SameTables.trans h1 (removeHandler_tables s' p), ?_⟩
+        show s'.registered.filter (· ≠ p) = _
+        rw [h3]; rfl
+
+theorem regInv_removeProcessor {U : Universe} (hn : NoRaise U) {s : St} (hp : PInv U s)
+    (h : RegInv U s) (t : Ty) : RegInv U (removeProcessor U s t).1 := by
+  rcases removeProcessor_full hn s t with ⟨_, heq⟩ | ⟨st, p, hg, _, hsame, hreg⟩
+  · rw [heq]; exact h
+  · have hpin := (hp.procsIff st p).mp hg
+    have hsorted : ∀ q, q ∈ (removeProcessor U s t).1.sorted ↔ (q ∈ s.sorted ∧ q ≠ p) := by
+      intro q
+      rw [hsame.sorted]
+      simp only [dropProc, List.mem_filter]
+      constructor
+      · rintro ⟨h1, h2⟩
+        refine ⟨h1, ?_⟩
+        intro e; subst e
+        simp [hpin.2] at h2
+      · rintro ⟨h1, h2⟩
+        refine ⟨h1, ?_⟩
+        simp only [ne_eq, decide_not, Bool.not_eq_eq_eq_not, Bool.not_true, decide_eq_false_iff_not]
+        intro hty
+        exact h2 (hp.onePerType h1 hpin.1 (hty.trans hpin.2.symm))
+    have hatt : ∀ o, Attached (removeProcessor U s t).1 o ↔ Attached s o :=
+      attached_of_rows (fun e => row_of_ents (hsame.ents.trans rfl) e)
+    have hnotatt : ¬ Attached s p := fun ha => h.disj p ha hpin.1
+    refine ⟨?_, oneOwner_of_rows (fun e => row_of_ents (hsame.ents.trans rfl) e) h.one, ?_⟩
+    · intro o ho
+      rw [hreg, hatt, hsorted]
+      have hr := h.reg o ho
+      by_cases hop : o = p
+      · subst hop
+        simp only [ho, if_true, List.mem_filter, ne_eq, not_true_eq_false, decide_false, and_false,
+          Bool.false_eq_true, or_false, false_iff]
+        exact hnotatt
+      · split
+        · simp only [List.mem_filter, ne_eq, hop, not_false_eq_true, decide_true, and_true]
+          exact hr
+        · simp only [ne_eq, hop, not_false_eq_true, and_true]
+          exact hr
+    · intro o ho hm
+      exact h.disj o ((hatt o).mp ho) ((hsorted o).mp hm).1
+
+theorem regInv_addProcessor {U : Universe} (hn : NoRaise U) {s : St} (hp : PInv U s) (h : RegInv U s)
+    (p : Obj) (prio? : Option Int) (hfresh : ¬ Attached s p) :
+    RegInv U (addProcessor U s p prio?).1 := by
+  unfold addProcessor
+  simp only
+  -- the state after the optional replacement
+  have key : ∀ s1 : St, RegInv U s1 → ¬ Attached s1 p → p ∉ s1.sorted →
+      RegInv U (attachEvents U (insertProc U (setPrio s1 p prio?) p) p none).1 := by
+    intro s1 h1 hna hns
+    have ht := attachEvents_tables U (insertProc U (setPrio s1 p prio?) p) p none
+    have hr := attachEvents_registered U (insertProc U (setPrio s1 p prio?) p) p none
+    have hents : (insertProc U (setPrio s1 p prio?) p).ents = s1.ents := by cases prio? <;> rfl
+    have hregs : (insertProc U (setPrio s1 p prio?) p).registered = s1.registered := by cases prio? <;> rfl
+    have hsorted : ∀ q, q ∈ (insertProc U (setPrio s1 p prio?) p).sorted ↔ (q = p ∨ q ∈ s1.sorted) := by
+      intro q
+      have : (setPrio s1 p prio?).sorted = s1.sorted := by cases prio? <;> rfl
+      show q ∈ insort U (setPrio s1 p prio?) p ↔ _
+      rw [mem_insort, this]
+    have hatt : ∀ o, Attached (attachEvents U (insertProc U (setPrio s1 p prio?) p) p none).1 o ↔ Attached s1 o :=
+      attached_of_rows (fun e => row_of_ents (ht.ents.trans hents) e)
+    refine ⟨?_, oneOwner_of_rows (fun e => row_of_ents (ht.ents.trans hents) e) h1.one, ?_⟩
+    · intro o ho
+      rw [hr, hatt, ht.sorted, hsorted, hregs]
+      have hreg := h1.reg o ho
+      by_cases hop : o = p
+      · subst hop
+        simp only [ho, if_true, mem_insertSorted, or_true, true_or]
+      · split
+        · rw [mem_insertSorted, hreg]; simp only [hop, or_false, false_or]
+        · rw [hreg]; simp only [hop, false_or]
+    · intro o ho hm
+      rw [ht.sorted, hsorted] at hm
+      rcases hm with rfl | hm
+      · exact hna ((hatt _).mp ho)
+      · exact h1.disj o ((hatt o).mp ho) hm
+  split
+  · rename_i s1 hx
+    split at hx
+    · rename_i hsome
+      obtain ⟨q, hq⟩ := Option.isSome_iff_exists.mp hsome
+      have hreg := regInv_removeProcessor hn hp h (tyOf U p)
+      have hex := removeProcessor_exact U hp (tyOf U p) q hq
+      have hents := (removeProcessor_ents U s (tyOf U p)).1
+      simp only [Prod.mk.injEq] at hx
+      rw [hx.1] at hreg hex hents
+      refine key s1 hreg ?_ (fun hm => hex.2 p hm rfl)
+      intro ha
+      exact hfresh ((attached_of_rows (fun e => row_of_ents hents e) p).mp ha)
+    · rename_i hnone
+      simp only [Prod.mk.injEq] at hx
+      rw [← hx.1]
+      refine key s h hfresh ?_
+      intro hm
+      have := (hp.procsIff (tyOf U p) p).mpr ⟨hm, rfl⟩
+      simp [this] at hnone
+  · rename_i r hne
+    split
+    · exact regInv_removeProcessor hn hp h (tyOf U p)
+    · exact h
+
+end Desper.World
+
+namespace Desper.World
+open Desper
+
+theorem deleteAll_eq_sweep (U : Universe) (s : St) (es : List Ent) :
+    deleteAll U s es = sweep U s es := by
+  induction es generalizing s with
+  | nil => rfl
+  | cons e es ih =>
+    simp only [deleteAll, sweep, deleteEntity, if_true]
+    cases hg : Dict.get? s.ents e with
+    | none => rfl
+    | some r =>
+      simp only
+      cases hx : removeTypes U s e (Dict.keys r) with
+      | mk s' o => cases o <;> simp only [ih]
+
+/-- removing the processors one by one (the loop of `clear`) leaves none -/
+theorem removeProcs_empties {U : Universe} (hn : NoRaise U) (ps : List Obj) :
+    ∀ s : St, PInv U s → ps.Nodup → (∀ q, q ∈ s.sorted ↔ q ∈ ps) →
+      (removeProcs U s ps).2 = .ok ∧ (removeProcs U s ps).1.sorted = [] := by
+  induction ps with
+  | nil =>
+    intro s _ _ hm
+    refine ⟨rfl, ?_⟩
+    show s.sorted = []
+    cases hs : s.sorted with
+    | nil => rfl
+    | cons a l => exact absurd ((hm a).mp (by rw [hs]; simp)) (by simp)
+  | cons p ps ih =>
+    intro s hp hnd hm
+    rw [List.nodup_cons] at hnd
+    have hpin : p ∈ s.sorted := (hm p).mpr (by simp)
+    have hg := (hp.procsIff (tyOf U p) p).mpr ⟨hpin, rfl⟩
+    have hinv := pinv_removeProcessor hp (tyOf U p)
+    simp only [removeProcs]
+    rcases removeProcessor_full hn s (tyOf U p) with ⟨hf, _⟩ | ⟨st, p', hg', hok, hsame, _⟩
+    · obtain ⟨rest, hr⟩ := visit_head U (tyOf U p)
+      rw [hr, List.find?_cons] at hf
+      simp [hg] at hf
+    · have hex := removeProcessor_exact U hp (tyOf U p) p hg
+      cases hx : removeProcessor U s (tyOf U p) with
+      | mk s' r =>
+        obtain ⟨o, c⟩ := r
+        rw [hx] at hok hinv hex hsame
+        simp only at hok; subst hok
+        simp only
+        refine ih s' hinv hnd.2 ?_
+        intro q
+        -- which st was removed: the exact type of p
+        have hst : st = tyOf U p := by
+          have h1 : Dict.get? s'.procs (tyOf U p) = none := hex.1
+          rw [hsame.procs] at h1
+          simp only [dropProc, Dict.get?_erase] at h1
+          by_cases hne : st = tyOf U p
+          · exact hne
+          · rw [if_neg hne, hg] at h1; simp at h1
+        subst hst
+        rw [hsame.sorted]
+        simp only [dropProc, List.mem_filter]
+        constructor
+        · rintro ⟨h1, h2⟩
+          have := (hm q).mp h1
+          simp only [List.mem_cons] at this
+          rcases this with rfl | h3
+          · simp at h2
+          · exact h3
+        · intro h1
+          have hq : q ∈ s.sorted := (hm q).mpr (by simp [h1])
+          refine ⟨hq, ?_⟩
+          simp only [ne_eq, decide_not, Bool.not_eq_eq_eq_not, Bool.not_true, decide_eq_false_iff_not]
+          intro hty
+          have := hp.onePerType hq hpin hty
+          subst this; exact hnd.1 h1
+
+end Desper.World
+
+namespace Desper.World
+open Desper
+
+theorem removeProcs_ents (U : Universe) (s : St) (ps : List Obj) :
+    (removeProcs U s ps).1.ents = s.ents := by
+  induction ps generalizing s with
+  | nil => rfl
+  | cons p ps ih =>
+    simp only [removeProcs]
+    have h1 := (removeProcessor_ents U s (tyOf U p)).1
+    cases hx : removeProcessor U s (tyOf U p) with
+    | mk s' r =>
+      obtain ⟨o, c⟩ := r
+      rw [hx] at h1
+      cases o <;> simp only
+      · rw [ih, h1]
+      all_goals exact h1
+
+theorem regInv_empty {U : Universe} {s : St} (hrows : ∀ e, (Dict.get? s.ents e).getD [] = [])
+    (hreg : s.registered = []) (hsorted : s.sorted = []) : RegInv U s := by
+  have hnoatt : ∀ o, ¬ Attached s o := by
+    rintro o ⟨e, t, h1⟩
+    have : row s e = [] := hrows e
+    rw [this] at h1; simp at h1
+  refine ⟨?_, ?_, ?_⟩
+  · intro o _
+    rw [hreg, hsorted]
+    constructor
+    · intro h1; simp at h1
+    · rintro (h1 | h1)
+      · exact absurd h1 (hnoatt o)
+      · simp at h1
+  · intro e t e' t' o h1 _
+    exact absurd ⟨e, t, h1⟩ (hnoatt o)
+  · intro o h1; exact absurd h1 (hnoatt o)
+
+theorem regInv_clear {U : Universe} (hn : NoRaise U) {s : St} (ht : TabInv U s) (hp : PInv U s) :
+    RegInv U (clear U s).1 := by
+  unfold clear
+  rw [deleteAll_eq_sweep]
+  have hpres : ∀ e ∈ Dict.keys s.ents, (Dict.get? s.ents e).isSome :=
+    fun e he => (Dict.mem_keys_iff _ e).mp he
+  obtain ⟨t1, t2, t3⟩ := sweep_total hn (Dict.keys s.ents) s ht ht.entKeys hpres
+  have hps := pinv_sameProcs hp (sweep_procs U s (Dict.keys s.ents))
+  cases hx : sweep U s (Dict.keys s.ents) with
+  | mk s1 o1 =>
+    rw [hx] at t1 t2 t3 hps
+    simp only at t1; subst t1
+    simp only
+    have hrows : ∀ e, (Dict.get? s1.ents e).getD [] = [] := by
+      intro e
+      by_cases he : e ∈ Dict.keys s.ents
+      · exact t2 e he
+      · have h1 := t3 e he
+        have h2 : Dict.get? s.ents e = none := by
+          cases hg : Dict.get? s.ents e with
+          | none => rfl
+          | some r => exact absurd ((Dict.mem_keys_iff _ e).mpr (by simp [hg])) he
+        simp [row, h1, h2]
+    have hps' : PInv U { s1 with dead := [] } := pinv_of_tables hps rfl rfl rfl
+    obtain ⟨r1, r2⟩ := removeProcs_empties hn { s1 with dead := [] }.sorted { s1 with dead := [] } hps'
+      hps'.nodup (fun q => Iff.rfl)
+    have hents := removeProcs_ents U { s1 with dead := [] } { s1 with dead := [] }.sorted
+    cases hy : removeProcs U { s1 with dead := [] } { s1 with dead := [] }.sorted with
+    | mk s2 o2 =>
+      rw [hy] at r1 r2 hents
+      simp only at r1; subst r1
+      simp only
+      exact regInv_empty (by rw [hents]; exact hrows) rfl r2
+
+/-- the guard under which "registered iff attached" is an invariant: instances are attached fresh
+(not attached anywhere, not a processor), a `create_entity` gets distinct instances of pairwise
+distinct types (D5a is outside), and processors are not components -/
+def opFresh (U : Universe) (s : St) : Op → Prop
+  | .create _ cs => FreshCreate U s cs
+  | .add _ c => ¬ Attached s c ∧ c ∉ s.sorted
+  | .addProc p _ => ¬ Attached s p
+  | _ => True
+
+theorem regInv_step {U : Universe} (hn : NoRaise U) {s : St} (ht : TabInv U s) (hp : PInv U s)
+    (h : RegInv U s) (op : Op) (hf : opFresh U s op) : RegInv U (step U s op).1 := by
+  cases op with
+  | create id? cs => exact regInv_createEntity hn ht h id? cs hf
+  | add e c => exact regInv_addComponent hn h e c hf.1 hf.2
+  | remove e t => exact regInv_removeComponent hn h e t
+  | delete e imm => exact regInv_deleteEntity hn h e imm
+  | process dt => exact regInv_process hn h dt
+  | clear => exact regInv_clear hn ht hp
+  | addProc p prio? => exact regInv_addProcessor hn hp h p prio? hf
+  | rmProc t => exact regInv_removeProcessor hn hp h t
+  | enable b =>
+    have ht' := setEnabled_tables U s b
+    have hr : (setEnabled U s b).1.registered = s.registered := by
+      unfold setEnabled; simp only
+      split
+      · exact releaseQ_reg U _ _
+      · rfl
+    exact regInv_fields h ht'.ents hr ht'.sorted
+  | dispatch ev args =>
+    exact regInv_fields h (dispatchPlain_tables U s ev args).ents (dispatchPlain_reg U s ev args)
+      (dispatchPlain_tables U s ev args).sorted
+
+/-- every operation of the history meets `opFresh` in the state it is applied to -/
+def FreshHist (U : Universe) : St → List Op → Prop
+  | _, [] => True
+  | s, op :: ops => opFresh U s op ∧ FreshHist U (step U s op).1 ops
+
+theorem regInv_run_from {U : Universe} (hn : NoRaise U) (ops : List Op) :
+    ∀ s : St, TabInv U s → PInv U s → RegInv U s → FreshHist U s ops → RegInv U (run U s ops) := by
+  induction ops with
+  | nil => intro s _ _ h _; exact h
+  | cons op ops ih =>
+    intro s ht hp h hf
+    exact ih (step U s op).1 (tabInv_step ht op) (pinv_step hp op) (regInv_step hn ht hp h op hf.1) hf.2
+
+theorem regInv_run {U : Universe} (hn : NoRaise U) (hints : List (List Ent)) (ops : List Op)
+    (hf : FreshHist U { sweepHints := hints } ops) : RegInv U (run U { sweepHints := hints } ops) :=
+  regInv_run_from hn ops _ (tabInv_init U hints) (pinv_init U hints)
+    (regInv_empty (by intro e; rfl) rfl rfl) hf
+
+end Desper.World
+
+namespace Desper.World
+open Desper
+
+/-- decidable over-approximation of `Attached`, for concrete states -/
+def attachedB (s : St) (o : Obj) : Bool := s.ents.any (fun er => er.2.any (fun tc => tc.2 == o))
+
+theorem not_attached_of_attachedB {s : St} {o : Obj} (h : attachedB s o = false) : ¬ Attached s o := by
+  rintro ⟨e, t, hg⟩
+  have hmem := Dict.get?_some_mem hg
+  cases hr : Dict.get? s.ents e with
+  | none => simp [row, hr] at hmem
+  | some r =>
+    have hrow : row s e = r := row_eq_of_get? hr
+    rw [hrow] at hmem
+    have her := Dict.get?_some_mem hr
+    have : attachedB s o = true := by
+      simp only [attachedB, List.any_eq_true]
+      exact ⟨(e, r), her, (t, o), hmem, by simp⟩
+    rw [h] at this; exact absurd this (by simp)
+
+end Desper.World
